@@ -33,7 +33,8 @@ def gen_cases(tier, seed):
     cases = []
     if tier == "quick":
         plan = [("AM1", "autodiff", 5), ("PM3", "analytical", 5), ("MNDO", "numerical", 3), ("PM6_SP", "analytical", 4),
-                ("PM6", "autodiff", 2), ("PM6", "autodiff-d", 2), ("AM1", "excited", 2), ("AM1", "uhf", 3), ("PM3", "uhf-analytical", 2)]
+                ("PM6", "autodiff", 2), ("PM6", "autodiff-d", 2), ("AM1", "excited", 2), ("AM1", "uhf", 3), ("PM3", "uhf-analytical", 2),
+                ("AM1", "cutoff", 2), ("PM3", "cutoff-analytical", 1)]
         ncone = [0.0, 1e-4, 1e-8]
         nhaar = 2
     else:
@@ -42,7 +43,8 @@ def gen_cases(tier, seed):
                 ("MNDO", "autodiff", 30), ("MNDO", "analytical", 30), ("MNDO", "numerical", 15),
                 ("PM6_SP", "autodiff", 30), ("PM6_SP", "analytical", 30),
                 ("PM6", "autodiff", 20), ("PM6", "autodiff-d", 20), ("AM1", "excited", 20), ("PM3", "excited_rpa", 8),
-                ("AM1", "uhf", 25), ("MNDO", "uhf", 15), ("PM3", "uhf-analytical", 15), ("PM6_SP", "uhf", 10)]
+                ("AM1", "uhf", 25), ("MNDO", "uhf", 15), ("PM3", "uhf-analytical", 15), ("PM6_SP", "uhf", 10),
+                ("AM1", "cutoff", 15), ("PM3", "cutoff-analytical", 10), ("MNDO", "cutoff", 8)]
         ncone = [0.0, 1e-2, 1e-3, 3e-4, 1e-4, 1e-6, 1e-8, 1e-10]
         nhaar = 6
     pool_all = gen.CLOSED_NEUTRAL + gen.IONS
@@ -55,6 +57,8 @@ def gen_cases(tier, seed):
             names = [m for m in names if m not in ("C6H6", "C2H6")]
         if mode == "autodiff-d":  # molecules with a d-orbital element (Si, P, S, Cl under PM6)
             names = [m for m in names if any(z in D_ELEMENTS_PM6 for z in gen.molecule(m)[0])]
+        if mode.startswith("cutoff"):  # finite pair_outer_cutoff: needs molecules larger than the cutoff
+            names = [m for m in names if m in ("C6H6", "C2H6", "CH3NH2", "CH3OH", "HCOOH", "C2H4", "CH3SH", "CH3Cl", "HOOH")]
         if mode.startswith("uhf"):  # open shells (doublets, triplets) and UHF singlets of closed-shell molecules
             names = gen.names_for(method, gen.RADICALS) + [m for m in names if m in ("H2O", "NH3", "CH2O", "HCN", "CH3OH")]
         picks = [names[i % len(names)] for i in g.permutation(max(len(names), n))[:n]] if n <= len(names) else \
@@ -82,12 +86,25 @@ def gen_cases(tier, seed):
                     for cone in dict.fromkeys(cones):
                         transforms.append({"kind": "align", "pair": [i, j], "axis": ax, "cone": cone,
                                            "seed": int(g.integers(0, 2**31))})
-            cases.append({"mol": name, "method": method, "mode": mode, "geom_seed": gs, "transforms": transforms})
+            case = {"mol": name, "method": method, "mode": mode, "geom_seed": gs, "transforms": transforms}
+            if mode.startswith("cutoff"):
+                # cutoff in the middle of the widest gap of the sorted pair distances between 70 % and 98 % of the
+                # molecular diameter, so that round-off under rotation can never flip a pair across it
+                d = np.sort(np.linalg.norm(Xd[:, None] - Xd[None], axis=-1)[np.triu_indices(len(Z), 1)])
+                lo, hi = 0.70 * d[-1], 0.98 * d[-1]
+                cand = [(d[k + 1] - d[k], 0.5 * (d[k] + d[k + 1])) for k in range(len(d) - 1) if lo <= d[k] and d[k + 1] <= hi]
+                if not cand or max(cand)[0] < 1e-3:
+                    continue
+                case["cutoff"] = float(max(cand)[1])
+            cases.append(case)
     return cases
 
 
-def _settings(method, mode):
+def _settings(method, mode, cutoff=None):
     from vlib import run
+    if mode.startswith("cutoff"):
+        return run.settings(method, eps=1e-10, converger=(2,), grad="analytical" if mode.endswith("analytical") else "autodiff",
+                            extra={"pair_outer_cutoff": float(cutoff)})
     if mode == "excited":
         return run.settings(method, eps=1e-10, converger=(2,), grad="analytical",
                             excited={"n_states": 3, "tolerance": 1e-8, "method": "cis",
@@ -153,7 +170,7 @@ def run_case(case):
     Z, X, q, m = gen.molecule(case["mol"])
     Xd = gen.distort(X, np.random.default_rng(case["geom_seed"]), sigma=0.05)
     method, mode = case["method"], case["mode"]
-    sett = _settings(method, mode)
+    sett = _settings(method, mode, case.get("cutoff"))
     g0 = np.random.default_rng(case["geom_seed"] + 1)
     R0 = gen.generic_rotation(Xd, g0)
     Xref = Xd @ R0.T
